@@ -266,6 +266,13 @@ func (f *Frame) intBinop(in ssa.Instruction, op token.Token, x, y Val, xin, yin 
 	if y.Big != nil {
 		cy = y.Big
 	}
+	// a constant argument of an inlined callee arrives as a literal term
+	if cx == nil && isDecimalLit(x.S) {
+		cx, _ = new(big.Int).SetString(x.S, 10)
+	}
+	if cy == nil && isDecimalLit(y.S) {
+		cy, _ = new(big.Int).SetString(y.S, 10)
+	}
 	switch op {
 	case token.ADD:
 		return wrap(app("+", x.S, y.S))
@@ -558,4 +565,16 @@ func (f *Frame) stringOfBytes(x Val, to types.Type) Val {
 	g.assume(fmt.Sprintf("(forall ((i %s)) (! (=> (and %s %s) (= (gstr.at %s i) (select (select %s (s_arr %s)) %s))) :pattern ((gstr.at %s i))))", ix,
 		g.icmp("<=", g.idxLit(0), "i", true), g.icmp("<", "i", app("s_len", x.S), true), s, f.cur.get(key), x.S, g.iadd(app("s_off", x.S), "i"), s))
 	return Val{S: s, Sort: "Str", GT: to}
+}
+
+func isDecimalLit(s string) bool {
+	if s == "" || len(s) > 40 {
+		return false
+	}
+	for _, c := range s {
+		if c < '0' || c > '9' {
+			return false
+		}
+	}
+	return true
 }
